@@ -1,18 +1,38 @@
 (* C14 — Must-link / cannot-link constraints: exact validation, right samples, right sign.
-   Statements only; every proof is [exact <lemma of Proofs/Mlcl.v>]. *)
+   Statements only; every proof is [exact <lemma of Proofs/Mlcl.v / Proofs/MlclGen.v>].
+   The theorems are about the model instantiated with the rules REGENERATED from gemclus/mlcl.py on
+   every build (Gen/MlclRules.v::mlcl_rules, written by translator/tr_mlcl.py):
+     valid_now = valid_r mlcl_rules, structural_now, accept_raw_now, decorate_now o = decorate_grads_r o (mr_grads mlcl_rules).
+   A rule that no longer is the documented one breaks C14_regenerated_rules_are_documented and every
+   theorem below with it. *)
 From Coq Require Import List Arith Bool Relations Permutation Reals Lra.
-From GV Require Import Common.Num Common.NumR Model.Mlcl Proofs.Mlcl.
+From GV Require Import Common.Num Common.NumR Model.Mlcl Gen.MlclRules Proofs.Mlcl Proofs.MlclGen.
 Import ListNotations.
+
+(* ---------------------------------------------------------------- the regenerated tie *)
+(* the holes read from the source now (list iterated by each loop, columns, normalised length tests,
+   check_array keywords, start node, mapping back to sample indices, orientations of the raising test,
+   membership test, target / sign / factor / operands and order of the four update lines) are the
+   documented ones (hand-written golden copy Model/Mlcl.v::documented_rules) *)
+Theorem C14_regenerated_rules_are_documented : mlcl_rules = documented_rules.
+Proof. exact rules_documented. Qed.
+
+(* and the parameterised model at these rules is the executable hand model that the correspondence runs *)
+Theorem C14_regenerated_model_is_hand_model :
+  (forall ml cl, valid_now ml cl = valid ml cl) /\ (forall ml cl, structural_now ml cl = structural ml cl) /\
+  (forall a b, accept_raw_now a b = accept_raw a b) /\
+  (forall (T : Type) (o : NumOps T) f idx Y ml cl G, decorate_now o f idx Y ml cl G = decorate_grads o f idx Y ml cl G).
+Proof. exact regenerated_model_is_hand_model. Qed.
 
 (* ---------------------------------------------------------------- validation *)
 (* accept <-> no self pair in must-link, none in cannot-link, and no cannot-link pair connected in the
    reflexive-symmetric-transitive closure of the must-link edges ([edge ml a b] := (a,b) or (b,a) in ml),
    for all finite pair lists over arbitrary naturals.  [valid] runs the structural check only when both
    lists are non-empty, as the code does; the equivalence holds regardless. *)
-Theorem C14_valid_iff_spec : forall ml cl, valid ml cl = true <->
+Theorem C14_valid_iff_spec : forall ml cl, valid_now ml cl = true <->
   (forall a b, In (a,b) ml -> a <> b) /\ (forall a b, In (a,b) cl -> a <> b) /\
   (forall a b, In (a,b) cl -> ~ clos_refl_trans nat (edge ml) a b).
-Proof. exact valid_iff_spec. Qed.
+Proof. exact gen_valid_iff_spec. Qed.
 
 (* the component labelling equals the closure of the edges (any edge list, any node names) *)
 Theorem C14_connected_iff_closure : forall es x y,
@@ -20,30 +40,30 @@ Theorem C14_connected_iff_closure : forall es x y,
 Proof. exact label_spec. Qed.
 
 (* the exploration loop of the structural check never runs out of fuel: [None] is not a verdict *)
-Theorem C14_check_terminates : forall ml cl, structural ml cl <> None.
-Proof. exact structural_terminates. Qed.
+Theorem C14_check_terminates : forall ml cl, structural_now ml cl <> None.
+Proof. exact gen_structural_terminates. Qed.
 
 (* shape layer: well-shaped pair lists (and None / [] for "no constraint") are judged by [valid];
    scalars, non-empty flat lists and 2-D inputs with a row of fewer than two columns are rejected
    whatever the other argument is *)
 Theorem C14_shape_well_formed : forall ml cl,
-  accept_raw (raw_of_pairs ml) (raw_of_pairs cl) = valid ml cl /\
-  accept_raw RNone (raw_of_pairs cl) = valid [] cl /\
-  accept_raw (raw_of_pairs ml) RNone = valid ml [].
-Proof. exact (fun ml cl => conj (accept_raw_pairs ml cl) (conj (accept_raw_none_l cl) (accept_raw_none_r ml))). Qed.
+  accept_raw_now (raw_of_pairs ml) (raw_of_pairs cl) = valid_now ml cl /\
+  accept_raw_now RNone (raw_of_pairs cl) = valid_now [] cl /\
+  accept_raw_now (raw_of_pairs ml) RNone = valid_now ml [].
+Proof. exact gen_shape_well_formed. Qed.
 
 Theorem C14_shape_malformed_rejected : forall r x, malformed r ->
-  accept_raw r x = false /\ accept_raw x r = false.
-Proof. exact accept_raw_malformed. Qed.
+  accept_raw_now r x = false /\ accept_raw_now x r = false.
+Proof. exact gen_accept_raw_malformed. Qed.
 
 (* ---------------------------------------------------------------- gradient decoration *)
 (* rows of samples that are in no pair lying wholly inside the batch come out unchanged, in every
    number system (hence bit-identical in binary64); the number of rows never changes.  No NoDup needed. *)
 Theorem C14_untouched_rows_identical : forall (T : Type) (o : NumOps T) f idx Y ml cl G p d,
-  length (decorate_grads o f idx Y ml cl G) = length G /\
+  length (decorate_now o f idx Y ml cl G) = length G /\
   (p < length idx -> ~ touched ml cl idx (nth p idx 0) ->
-   nth p (decorate_grads o f idx Y ml cl G) d = nth p G d).
-Proof. exact (fun T o f idx Y ml cl G p d => conj (decorate_length o f idx Y ml cl G) (decorate_untouched o f idx Y ml cl G p d)). Qed.
+   nth p (decorate_now o f idx Y ml cl G) d = nth p G d).
+Proof. exact gen_untouched. Qed.
 
 (* closed form over the reals, any batch, any pair lists: the shape (n rows, K columns) is kept and entry (p,k)
    of the gradient handed to the wrapped _compute_grads is the incoming entry
@@ -51,11 +71,11 @@ Proof. exact (fun T o f idx Y ml cl G p d => conj (decorate_length o f idx Y ml 
    - the same sum over must-link pairs; positions are those of the first occurrence of the true index *)
 Theorem C14_decoration_rows_and_sign : forall f idx Y ml cl G n K,
   length idx = n -> wf n K Y -> wf n K G ->
-  wf n K (decorate_grads Rops f idx Y ml cl G) /\
+  wf n K (decorate_now Rops f idx Y ml cl G) /\
   forall p k, p < n -> k < K ->
-    ent (decorate_grads Rops f idx Y ml cl G) p k
+    ent (decorate_now Rops f idx Y ml cl G) p k
     = (ent G p k + csum f idx Y cl p k - csum f idx Y ml p k)%R.
-Proof. exact decorate_ent. Qed.
+Proof. exact gen_decorate_ent. Qed.
 
 (* a pair that is not wholly inside the batch contributes nothing to any entry *)
 Theorem C14_pair_outside_batch_inert : forall f idx Y i j p k,
@@ -65,20 +85,20 @@ Proof. exact contrib_outside. Qed.
 (* single must-link pair in the batch: row(i) gets -factor*(y_i - y_j) added, row(j) the opposite *)
 Theorem C14_single_must_link : forall f idx Y G n K i j k,
   length idx = n -> wf n K Y -> wf n K G -> In i idx -> In j idx -> i <> j -> k < K ->
-  ent (decorate_grads Rops f idx Y [(i, j)] [] G) (index i idx) k
+  ent (decorate_now Rops f idx Y [(i, j)] [] G) (index i idx) k
     = (ent G (index i idx) k + - (f * (ent Y (index i idx) k - ent Y (index j idx) k)))%R /\
-  ent (decorate_grads Rops f idx Y [(i, j)] [] G) (index j idx) k
+  ent (decorate_now Rops f idx Y [(i, j)] [] G) (index j idx) k
     = (ent G (index j idx) k + (f * (ent Y (index i idx) k - ent Y (index j idx) k)))%R.
-Proof. exact decorate_single_ml. Qed.
+Proof. exact gen_single_ml. Qed.
 
 (* single cannot-link pair: the reverse *)
 Theorem C14_single_cannot_link : forall f idx Y G n K i j k,
   length idx = n -> wf n K Y -> wf n K G -> In i idx -> In j idx -> i <> j -> k < K ->
-  ent (decorate_grads Rops f idx Y [] [(i, j)] G) (index i idx) k
+  ent (decorate_now Rops f idx Y [] [(i, j)] G) (index i idx) k
     = (ent G (index i idx) k + (f * (ent Y (index i idx) k - ent Y (index j idx) k)))%R /\
-  ent (decorate_grads Rops f idx Y [] [(i, j)] G) (index j idx) k
+  ent (decorate_now Rops f idx Y [] [(i, j)] G) (index j idx) k
     = (ent G (index j idx) k + - (f * (ent Y (index i idx) k - ent Y (index j idx) k)))%R.
-Proof. exact decorate_single_cl. Qed.
+Proof. exact gen_single_cl. Qed.
 
 (* the result does not depend on the order of the batch: two presentations of the same batch (same
    samples; each sample carries the same prediction row and gradient row) give each sample the same
@@ -88,24 +108,24 @@ Theorem C14_batch_order_irrelevant : forall (T : Type) (o : NumOps T) f idx idx'
   length G = length idx -> length G' = length idx' ->
   (forall s, In s idx -> lookup s idx Y = lookup s idx' Y' /\ lookup s idx G = lookup s idx' G') ->
   forall s, In s idx ->
-    lookup s idx (decorate_grads o f idx Y ml cl G) = lookup s idx' (decorate_grads o f idx' Y' ml cl G').
-Proof. exact @decorate_order_irrelevant. Qed.
+    lookup s idx (decorate_now o f idx Y ml cl G) = lookup s idx' (decorate_now o f idx' Y' ml cl G').
+Proof. exact gen_order_irrelevant. Qed.
 
 (* equivariance: permuting indices, prediction rows and gradient rows consistently permutes the result *)
 Theorem C14_permutation_equivariance : forall (T : Type) (o : NumOps T) f idx Y ml cl G perm,
   NoDup idx -> length Y = length idx -> length G = length idx ->
   Permutation perm (seq 0 (length idx)) ->
-  decorate_grads o f (permute 0 perm idx) (permute [] perm Y) ml cl (permute [] perm G)
-  = permute [] perm (decorate_grads o f idx Y ml cl G).
-Proof. exact @decorate_permutation_equivariant. Qed.
+  decorate_now o f (permute 0 perm idx) (permute [] perm Y) ml cl (permute [] perm G)
+  = permute [] perm (decorate_now o f idx Y ml cl G).
+Proof. exact gen_permutation_equivariant. Qed.
 
 (* non-vacuity: a consistent and a contradictory set over non-contiguous indices, and the hypotheses of
    the decoration theorems on a concrete batch [42; 3; 11] with the must-link pair (3, 42) *)
 Example C14_nonvacuous :
-  valid [(3, 7); (42, 7)] [(3, 11); (20, 42)] = true /\ valid [(3, 7); (42, 7)] [(42, 3)] = false /\
+  valid_now [(3, 7); (42, 7)] [(3, 11); (20, 42)] = true /\ valid_now [(3, 7); (42, 7)] [(42, 3)] = false /\
   let idx := [42; 3; 11] in let Y := [[1; 0]; [0; 1]; [/2; /2]]%R in let G := [[0; 0]; [0; 0]; [0; 0]]%R in
   length idx = 3 /\ wf 3 2 Y /\ wf 3 2 G /\ NoDup idx /\ Permutation [2; 0; 1] (seq 0 (length idx)) /\
-  ent (decorate_grads Rops 2%R idx Y [(3, 42)] [] G) 1 0 = 2%R /\ touched [(3, 42)] [] idx 3 /\ ~ touched [(3, 42)] [] idx 11.
+  ent (decorate_now Rops 2%R idx Y [(3, 42)] [] G) 1 0 = 2%R /\ touched [(3, 42)] [] idx 3 /\ ~ touched [(3, 42)] [] idx 11.
 Proof.
   split; [vm_compute; reflexivity|]. split; [vm_compute; reflexivity|]. cbv zeta.
   assert (W1 : wf 3 2 [[1; 0]; [0; 1]; [/2; /2]]%R) by (split; [reflexivity | repeat constructor]).
@@ -113,7 +133,7 @@ Proof.
   repeat split; try exact (proj2 W1); try exact (proj2 W2).
   - repeat constructor; simpl; intuition discriminate.
   - change (Permutation [2; 0; 1] [0; 1; 2]). apply (Permutation_cons_app [0; 1] [] 2). apply Permutation_refl.
-  - destruct (decorate_single_ml 2%R [42; 3; 11] _ _ 3 2 3 42 0 eq_refl W1 W2) as [H _];
+  - destruct (gen_single_ml 2%R [42; 3; 11] _ _ 3 2 3 42 0 eq_refl W1 W2) as [H _];
       [right; left; reflexivity | left; reflexivity | discriminate | repeat constructor |].
     change (index 3 [42; 3; 11]) with 1 in H. change (index 42 [42; 3; 11]) with 0 in H.
     rewrite H. unfold ent. cbn [nth]. lra.
@@ -122,6 +142,8 @@ Proof.
     destruct Hs; discriminate.
 Qed.
 
+Print Assumptions C14_regenerated_rules_are_documented.
+Print Assumptions C14_regenerated_model_is_hand_model.
 Print Assumptions C14_valid_iff_spec.
 Print Assumptions C14_connected_iff_closure.
 Print Assumptions C14_check_terminates.
